@@ -23,6 +23,7 @@ def run(chk):
     batcher.bounded_retry(chk, P, "C08")
     batcher.nothing_under_lock(chk, P, "C08")
     batcher.one_critical_section(chk, P, "C08")
+    batcher.constructor_rule(chk, P, "C08")
     batcher.termination(chk, P, "C08")
     batcher.watchers_after_last_attempt(chk, P, "C08")
     batcher.watcher_lists(chk, P, "C08")
